@@ -19,6 +19,7 @@ REQUIRED = [
     "DaeVerif.C02.Props.ring_disjoint_from_previous",
     "DaeVerif.C02.Props.ring_overlap_when_too_many",
     "DaeVerif.C02.Props.routeK_pname_gap",
+    "DaeVerif.C02.Props.routeK_eq_userspace_without_H3_fails",
     "DaeVerif.C02.Props.lpm_key_same_set",
     "DaeVerif.C02.Props.domain_bit_same",
 ]
